@@ -3,6 +3,16 @@ each property.  A unit may serve several properties; its obligations are
 generated once per check run."""
 
 UNITS = {
+    'C10': {
+        'functions': ['penman.tree:is_atomic', 'penman.tree:_map_vars'],
+        'lemmas': [],
+        'level': 'other',
+        'explanation': 'Proved: _map_vars rewrites a tree exactly as the relabelling spec says (same shape, roles, '
+                       'concepts and constants; node variables replaced by their image; references replaced with '
+                       'their alignment suffix kept; quoted strings untouched) for every tree and every map.  '
+                       'That reset_variables builds a bijective first-fit map, and the isomorphism of the '
+                       'readings, are decided by the bounded stand-in.',
+    },
     'C08': {
         'functions': [],
         'regex': ['lexer'],
